@@ -25,6 +25,27 @@ ordinary checks; additionally the definition bytes must equal those of the
 same program with the rejected helper removed.  A violation that the program
 without the helper does not show is keyed C04/failed-wrap-leaves-trace/<what>.
 
+Recovered failing body (18 % of the programs) - the class "a fault at a
+point where the definition under construction has already been changed,
+handled by the graph function, followed by continued construction": a
+wrapped helper with a VALID signature (own rates / prepend / array / lag
+parameters, sometimes named like other parameters) whose BODY raises after
+SynthDef.wrap made its parameters controls - after using j of them and
+completing m of its own 0-2 wraps; the exception is user code's (8 classes)
+or raised by the library for a nested SynthDef.wrap call (not a function,
+invalid annotation, *args signature); it is handled by the function that
+called wrap or by one 1-3 wrap levels further up (the wrapped functions in
+between are abandoned half way); the handler wraps a fallback (other names,
+the same names, the very same function once more) or nothing and carries on
+with its remaining wraps, and up to two such failures occur per program.
+The oracle accepts the two consistent outcomes for what the handled call
+created - all of it is part of the definition (slots, control units, name
+entries: what the unchanged library does) or none of it - and refutes
+everything in between: name-table indices lagging behind the slots, names
+without slots, slots without names, control units not partitioning the
+array, bodies wired to other slots than the names announce, variants
+computed on a shifted array.  Keys: C04/recovered-body-failure/<what>.
+
 Repeated control names (30 % of the programs): the same helper function is
 wrapped 2-3 times (own rates / prepend values each time) and/or a helper
 declares parameters named like those of the enclosing / top / another
@@ -67,7 +88,13 @@ MIN_COUNTERS = {
               'lagcontrol_chunked_groups': 5,
               'failed_wraps_recovered': 300,
               'repeated_name_declarations': 1000,
-              'failed_wrap_bytes_compared': 250},
+              'failed_wrap_bytes_compared': 250,
+              'failed_bodies_recovered': 1500,
+              'programs_wrapping_after_a_failed_body': 800,
+              'controls_declared_after_a_failed_body': 3000,
+              'controls_of_failed_bodies': 3000,
+              'failed_bodies_passing_through_a_wrapped_function': 100,
+              'failed_bodies_raised_by_library_call': 300},
     'thorough': {'programs_decoded': 60000, 'sinks_checked': 300000,
                  'name_entries_checked': 300000, 'lag_inputs_checked': 30000,
                  'variant_blocks_checked': 10000, 'calls_checked': 50000,
@@ -75,7 +102,13 @@ MIN_COUNTERS = {
                  'lagcontrol_chunked_groups': 300,
                  'failed_wraps_recovered': 10000,
                  'repeated_name_declarations': 30000,
-                 'failed_wrap_bytes_compared': 8000},
+                 'failed_wrap_bytes_compared': 8000,
+                 'failed_bodies_recovered': 50000,
+                 'programs_wrapping_after_a_failed_body': 25000,
+                 'controls_declared_after_a_failed_body': 100000,
+                 'controls_of_failed_bodies': 100000,
+                 'failed_bodies_passing_through_a_wrapped_function': 3000,
+                 'failed_bodies_raised_by_library_call': 10000},
 }
 
 
@@ -84,6 +117,17 @@ def plan(tier, seed):
     return [{'name': f'sig{p}', 'mode': 'nrt', 'kind': 'sig', 'first_case': f,
              'n': n, 'secs': secs, 'hard_timeout': secs + 150}
             for p, (f, n) in enumerate(split(total, parts))]
+
+
+class UserError(Exception):
+    """an error of the user's graph function code"""
+
+
+USER_EXCEPTIONS = {'UserError': UserError, 'TypeError': TypeError,
+                   'ZeroDivisionError': ZeroDivisionError,
+                   'KeyError': KeyError, 'RuntimeError': RuntimeError,
+                   'ValueError': ValueError, 'IndexError': IndexError,
+                   'StopIteration': StopIteration}
 
 
 def exc_site(e):
@@ -155,6 +199,33 @@ def trace_class(key, wit):
     return tail.replace('/', '-')
 
 
+FB_ORDER = ('name-table/index', 'body-signal', 'control-units',
+            'default-value', 'variants', 'name-table', 'param-count')
+
+
+def fb_rank(key):
+    tail = key[len('C04/'):]
+    for k, pre in enumerate(FB_ORDER):
+        if tail.startswith(pre):
+            return k
+    return len(FB_ORDER)
+
+
+def fb_class(key):
+    """mechanism class of a violation that only the program with the handled
+    body failure shows (rate / repeated-name details go into the witness)"""
+    tail = key[len('C04/'):]
+    if tail.startswith('name-table/index'):
+        return 'name-table-index-not-at-own-slots'
+    if tail.startswith('body-signal/'):
+        return 'body-signal-' + tail.split('/')[-1]
+    if tail.startswith('default-value'):
+        return 'default-value'
+    if tail in ('name-table/missing', 'name-table/entry-of-repeated-name-lost'):
+        return 'name-table-entries-missing'
+    return tail.replace('/', '-')
+
+
 ARGS_SITES = ('synthdef.py:_args_to_controls',
               'synthdef.py:_get_valid_arg_values')
 
@@ -173,6 +244,10 @@ def run_case(acc, H, i, prog):
     violation the variant does not show gets the feature's mechanism key.
       fw     recovered failing wrap: the model ignores the rejected helper and
              the definition bytes must equal those of the program without it
+      fb     recovered failing body: decided by the model (two consistent
+             outcomes accepted, see vf/model_controls.py); a violation that
+             the same program with non-failing bodies does not show is keyed
+             C04/recovered-body-failure/<what>
       empty  an empty tuple default: either the build rejects the signature
              or the parameter (no values, no slots) has no name entry
       slag   a list of lags for a scalar parameter = its first element"""
@@ -197,6 +272,9 @@ def run_case(acc, H, i, prog):
         acc.count('failed_wrap_programs')
         prog2 = G.without_failed_wraps(prog)
         prefix = 'C04/failed-wrap-leaves-trace/'
+    elif special == 'fb':
+        prog2 = G.without_body_failures(prog)
+        prefix = 'C04/recovered-body-failure/'
     else:
         prog2 = G.without_odd_parameters(prog)
         prefix = {'empty': 'C04/empty-tuple-default/',
@@ -205,7 +283,11 @@ def run_case(acc, H, i, prog):
     b2 = eval_prog(c2, H, i, prog2)
     plain = {k for k, _ in c2.viols}
     traced = False
-    for key, wit in c.viols:
+    viols = c.viols
+    if special == 'fb':
+        # one key per defect: the most telling manifestation first
+        viols = sorted(c.viols, key=lambda kw: fb_rank(kw[0]))
+    for key, wit in viols:
         if key in plain:
             acc.violation(key, wit)          # present without the feature too
         elif not traced:
@@ -214,6 +296,7 @@ def run_case(acc, H, i, prog):
             wit['key_without_context'] = key
             wit['all_keys'] = sorted({k for k, _ in c.viols})
             what = trace_class(key, wit) if special == 'fw' else \
+                fb_class(key) if special == 'fb' else \
                 'corrupts-definition'
             acc.violation(prefix + what, wit)
     if special == 'fw' and not traced and b is not None and b2 is not None:
@@ -238,7 +321,8 @@ def eval_prog(acc, H, i, prog):
     funcs = prog['funcs']
     ns = {}
     st = {'order': [], 'prepend_bad': [], 'prepend_checked': 0,
-          'received': {}, 'shape_bad': [], 'rejected': [], 'not_rejected': []}
+          'received': {}, 'shape_bad': [], 'rejected': [], 'not_rejected': [],
+          'routed': set(), 'raised': [], 'handled': [], 'lib_accepted': []}
     pending_prepend = {}
 
     def body(fname, loc):
@@ -263,9 +347,13 @@ def eval_prog(acc, H, i, prog):
                 if not same:
                     st['prepend_bad'].append(
                         (fname, p['name'], repr(want)[:80], repr(got)[:80]))
-        for p in f['params'][f['prepend']:]:
+        bf = f.get('body_fails')
+        for k, p in enumerate(f['params'][f['prepend']:]):
+            if bf and k == bf['route']:
+                break               # the rest is never used: the body fails
             v = loc[p['name']]
             key = (fname, p['name'])
+            st['routed'].add(key)
             s = slots[key]
             n = len(v) if isinstance(v, list) else 1
             if (isinstance(v, list) and not s.is_array and s.size == 1) or \
@@ -301,8 +389,45 @@ def eval_prog(acc, H, i, prog):
             finally:
                 st.pop('next_fn', None)
 
-        for child in f['wraps']:
-            if funcs[child].get('fails'):
+        def fail():
+            # the body of a wrapped function fails after its parameters
+            # were made controls
+            st['failing_now'] = fname
+            st['raised'].append(fname)
+            if bf['kind'] == 'user':
+                raise USER_EXCEPTIONS[bf['exc']](f'body of {fname} fails')
+            if bf['kind'] == 'wrap-not-a-function':
+                H.SynthDef.wrap(42)
+            elif bf['kind'] == 'wrap-bad-annotation':
+                H.SynthDef.wrap(ns['__bad_annotation__'])
+            else:
+                H.SynthDef.wrap(ns['__star_args__'])
+            st['lib_accepted'].append((fname, bf['kind']))
+            raise USER_EXCEPTIONS[bf['exc']]('not raised by the library')
+
+        def guarded(child):
+            # this function handles the exception of a failing body below
+            # the call and carries on
+            try:
+                do_wrap(child)
+            except Exception as e:
+                who = st.get('failing_now')
+                if who is None or catch_points.get(who) != (fname, child) \
+                        or type(e).__name__ != funcs[who]['body_fails']['exc']:
+                    raise
+                del st['failing_now']
+                st['handled'].append((who, fname, child))
+                st.setdefault('mark', len(st['order']))
+                pending_prepend.clear()
+                if funcs[who].get('fallback'):
+                    do_wrap(funcs[who]['fallback'])
+
+        for idx, child in enumerate(f['wraps']):
+            if bf and idx == bf['wraps']:
+                fail()
+            if (fname, child) in guards:
+                guarded(child)
+            elif funcs[child].get('fails'):
                 # recovered failing wrap: catch the rejection, carry on
                 try:
                     do_wrap(child)
@@ -313,11 +438,26 @@ def eval_prog(acc, H, i, prog):
                     do_wrap(funcs[child]['fallback'])
             else:
                 do_wrap(child)
+        if bf:
+            fail()
         return None
 
     ns['__body__'] = body
     src = G.source(prog)
     exec(compile(src, f'<c04 case {i}>', 'exec'), ns)
+    has_fb = any(f.get('body_fails') for f in funcs.values())
+    catch_points, guards = {}, set()
+    if has_fb:
+        exec("def __bad_annotation__(x=1, y: 'krr' = 2, z=3):\n    pass\n"
+             "def __star_args__(x=1, *more):\n    pass\n", ns)
+        parent = {w: f['name'] for f in funcs.values() for w in f['wraps']}
+        for f in funcs.values():
+            if f.get('body_fails'):
+                child = f['name']
+                for _ in range(f['body_fails']['catch_up']):
+                    child = parent[child]
+                catch_points[f['name']] = (parent[child], child)
+                guards.add((parent[child], child))
     top = funcs[prog['top']]
     top_prepend = [pv[1] for pv in top['prepend_values']]
     pending_prepend[prog['top']] = top_prepend
@@ -351,8 +491,33 @@ def eval_prog(acc, H, i, prog):
     if st['not_rejected']:
         acc.count('failed_wrap_not_rejected_no_verdict')
         return None
+    if st['lib_accepted']:
+        acc.count('failing_body_library_call_accepted_no_verdict')
+        return None
     acc.count('failed_wraps_recovered', len(st['rejected']))
-    raw = bytes(sd.as_bytes())
+    if has_fb:
+        acc.count('failed_bodies_recovered', len(st['handled']))
+        acc.count('failed_bodies_passing_through_a_wrapped_function',
+                  sum(1 for who, _, _ in st['handled']
+                      if funcs[who]['body_fails']['catch_up']))
+        acc.count('failed_bodies_raised_by_library_call',
+                  sum(1 for who, _, _ in st['handled']
+                      if funcs[who]['body_fails']['kind'] != 'user'))
+        if st['handled']:
+            later = st['order'][st['mark']:]
+            acc.count('functions_wrapped_after_a_failed_body', len(later))
+            if later:
+                acc.count('programs_wrapping_after_a_failed_body')
+            acc.count('controls_declared_after_a_failed_body',
+                      sum(1 for k in lay['order'] if k[0] in later))
+        acc.count('controls_of_failed_bodies',
+                  sum(1 for k in lay['order']
+                      if funcs[k[0]].get('body_fails')))
+    try:
+        raw = bytes(sd.as_bytes())
+    except Exception as e:
+        viol(f'C04/as-bytes-raises/{exc_site(e)}', exception=short_tb(e))
+        return None
     try:
         d = H.scgf.parse(raw)
     except Exception as e:
@@ -380,10 +545,38 @@ def eval_prog(acc, H, i, prog):
     for bad in st['shape_bad'][:1]:
         viol('C04/body-signal/channel-count', detail=bad)
 
+    k0 = len(acc.viols)
+    go_on = check_decoded(acc, viol, H, d, prog_m, lay, tags, st)
+    if has_fb and len(acc.viols) > k0:
+        # the other consistent outcome: everything created inside the
+        # handled call was taken back
+        alt = Collector(acc, True)
+        lay2 = MC.layout(prog_m, 'dropped')
+
+        def viol2(key, **kw):
+            alt.violation(key, kw)
+        go_on = check_decoded(alt, viol2, H, d, prog_m, lay2, tags, st)
+        if not alt.viols:
+            del acc.viols[k0:]
+            acc.count('failed_body_rolled_back_completely_accepted')
+        else:
+            acc.viols[k0][1]['keys_if_failed_call_were_rolled_back'] = \
+                sorted({k for k, _ in alt.viols})
+            go_on = False
+    if not go_on:
+        return raw
+    return check_call(acc, viol, H, sd, prog, st, raw, d, src, desc,
+                      layout_desc, nontriv, i)
+
+
+def check_decoded(acc, viol, H, d, prog_m, lay, tags, st):
+    """decoded definition against one layout; -> False: give up the case"""
+    slots = lay['slots']
+    funcs = prog_m['funcs']
     # -- parameter array -------------------------------------------------
     if len(d.params) != lay['P']:
         viol('C04/param-count', decoded=len(d.params), expected=lay['P'])
-        return raw
+        return False
     for key, s in slots.items():
         n = s.name
         for ch in range(s.size):
@@ -414,8 +607,14 @@ def eval_prog(acc, H, i, prog):
             what = 'extra'
         viol(f'C04/name-table/{what}', decoded=d.param_names,
              expected=exp_pairs, lost=lost)
-    elif sorted(d.param_names) != exp_pairs:
-        bad = sorted(set(exp_pairs) - set(d.param_names))
+    # names present as often as declared must point at their own slots (also
+    # when other names are missing / extra)
+    agree = {n for n in exp_cnt if got_cnt.get(n, 0) == exp_cnt[n]}
+    got_a = sorted(p for p in d.param_names if p[0] in agree)
+    exp_a = [p for p in exp_pairs if p[0] in agree]
+    if got_a != exp_a:
+        bad = sorted((collections.Counter(exp_a)
+                      - collections.Counter(got_a)).elements())
         s0 = next(s for s in slots.values()
                   if s.size and (s.name, s.index) == bad[0])
         rep_ = '/repeated-name' if lay['name_count'][s0.name] > 1 else ''
@@ -450,6 +649,9 @@ def eval_prog(acc, H, i, prog):
         n = s.name
         if s.size == 0:
             continue
+        if key not in st['routed'] and funcs[key[0]].get('body_fails'):
+            acc.count('controls_not_used_by_failed_body')
+            continue            # the body failed before it used the parameter
         us = sinks.get(float(tags[key]), [])
         if len(us) != 1:
             viol('C04/body-signal/sink-missing', name=n, found=len(us))
@@ -482,6 +684,14 @@ def eval_prog(acc, H, i, prog):
                      expected=vals)
                 break
 
+    return True
+
+
+def check_call(acc, viol, H, sd, prog, st, raw, d, src, desc, layout_desc,
+               nontriv, i):
+    funcs = prog['funcs']
+    top = funcs[prog['top']]
+    CTL = ('Control', 'TrigControl', 'AudioControl', 'LagControl')
     # -- SynthDef.__call__ ------------------------------------------------
     call = prog['call']
     try:
